@@ -306,6 +306,14 @@ PROPS["C15"] = dict(
 
 OMP_FAM = "mul,ech"
 def _c16_stages(tier):
+    st = _c16_stages0(tier)
+    for x in st:
+        # do not oversubscribe the 16 cores: workers x OpenMP threads <= 32
+        t = int(x.get("env", {}).get("OMP_NUM_THREADS", "1"))
+        x["workers"] = max(2, min(16, 32 // t))
+    return st
+
+def _c16_stages0(tier):
     st = []
     nthr = [1, 2, 3, 4, 5, 8, 16] if tier == "thorough" else [1, 2, 3, 16]
     for t in nthr:
